@@ -255,7 +255,7 @@ Proof.
   pose proof (take_result_perm k i xs Hi Hp) as Hperm. fold t rest in Hperm.
   pose proof (vis_get_any st v) as Hvis. rewrite Hg in Hvis. cbn [slot_xs] in Hvis. fold xs in Hvis.
   pose proof (vis_set_any st v (Some (with_xs a rest))) as H1. cbn [slot_xs with_xs a_xs] in H1.
-  destruct sk as [| |d|d j| |k0|n0 d0 k0|n0 k0]; try discriminate.
+  destruct sk as [| |d|d j| |k0|n0 d0 k0|n0 k0|]; try discriminate.
   - injection Hr as <-. cbn [ok_res s_nx s_st s_evs]. rewrite (drops_drop_ev c _ Hdg). perm_count.
   - injection Hr as <-. cbn [ok_res s_nx s_st s_evs]. rewrite (drops_drop_ev c _ Hdg). perm_count.
   - destruct (Nat.eqb_spec d v) as [|Hne]; [discriminate|].
@@ -359,7 +359,7 @@ Proof.
       injection Hs as <- <- <- <-. apply (IH i j r0 d0 i0 j0 Hij Hj E).
     + set (idx := if front then i else (j - 1)%nat) in *.
       set (i1 := if front then S i else i) in *. set (j1 := if front then j else (j - 1)%nat) in *.
-      destruct (match sk with KDrop => Some [] | KDown => Some [nth idx xs 0] | _ => None end) as [out|]; [|discriminate].
+      destruct (match sk with KDrop | KSkip => Some [] | KDown => Some [nth idx xs 0] | _ => None end) as [out|]; [|discriminate].
       destruct (sp_walk xs pat i1 j1) as [[[[r0 d0] i0] j0]|] eqn:E; [|discriminate].
       injection Hs as <- <- <- <-.
       assert (H1 : (i1 <= j1)%nat /\ (j1 <= length xs)%nat) by (unfold i1, j1; destruct front; lia).
